@@ -691,7 +691,7 @@ func safetySweep(cc *checkCtx, w *World) *extraResult {
 		}
 		toSolve = append(toSolve, o)
 	}
-	solveAll(toSolve, opts)
+	solveRobust(toSolve, opts)
 	var unprovedBaseline []string
 	proved := 0
 	for _, o := range sr.obls {
